@@ -57,6 +57,7 @@ def gen_image(r, J):
     n = r.choice([1, 1, 2, 4, 7])
     k = 0
     gap_pairs = []
+    same_number = []
     for _ in range(n):
         kind = r.choice(["hostile-name", "symlink-then-dir", "symlink-then-file", "dup-files", "dup-dirs", "symlink-victim", "nested-hostile", "dev-fifo", "unsorted"])
         feats.add(kind)
@@ -85,6 +86,15 @@ def gen_image(r, J):
             if r.random() < 0.5:
                 a, b_ = b_, a      # which of the two comes first in a sorted listing
             gap_pairs.append((a, b_))
+            if r.random() < 0.35:
+                same_number.append((a, b_))      # both inode records claim the same inode number ("the same inode linked twice")
+                feats.add("pair-same-inode-number")
+            if r.random() < 0.4:
+                # a name that differs from the pair's name only in case, stored between the two
+                cv = pre + b"v" + u
+                t[cv] = Node("file", 0o644, data=[("bytes", b"case variant")])
+                raw[cv] = nm.upper() if nm.upper() != nm else nm.lower()
+                feats.add("case-variant-between")
             t[a] = Node("slink", 0o777, target=r.choice(targets if not pre else [b"../" + x if not x.startswith(b"/") else x for x in targets]))
             raw[a] = nm
             if kind == "symlink-then-dir":
@@ -135,6 +145,11 @@ def gen_image(r, J):
                         ents = [a] + ents + [b_]
             return ents
     img, fmap, info = sqfsimg.build_image(t, raw_names=raw, entry_shuffle=shuffle, exportable=False)
+    f = {n: (o, sz) for n, o, sz in fmap.fields}
+    for a, b_ in same_number:
+        k = "inode[%s].number" % sqfsimg._nm(b_)
+        if k in f and a in info["number"]:
+            img = sqfsimg.patch(img, f[k][0], f[k][1], info["number"][a])
     return img, sorted(feats), t, raw
 
 
